@@ -214,7 +214,7 @@ def showItems (sel : Selected) (cnt : Nat) (sse : Bool) (ra rb : Bytes) : String
 def handleE2E (i o : List String) : String :=
   match i, o with
   | [rpc, inj, err, gone, _ct, acc, body, rbp, tmo, n, resp, md],
-    [st, ct, xcto, obody, ds, dm, hdr, trl, pm, fe, nat, tr, u8] =>
+    [st, ct, xcto, obody, ds, dm, hdr, trl, pm, fe, nat, tr, u8, late] =>
     let parsed : Option (Scenario × Env × Obs × Bytes × Bytes × String × Option (String × Bool × Bytes)) := do
       let rpc ← (kv? "rpc" rpc) >>= parseRpc?
       let inj ← (kv? "inj" inj) >>= parseInj?
@@ -279,6 +279,8 @@ def handleE2E (i o : List String) : String :=
     match parsed with
     | none => "BAD e2e fields"
     | some (sc, env, obs, ra, rb, tmo, sRec) =>
+      -- C10_no_write_after_return: nothing may use the ResponseWriter once ServeHTTP has returned
+      if (kv? "late" late) != some "0" then s!"VIOL write-after-return {late} (Write/WriteHeader/Flush still running or started after ServeHTTP returned)" else
       if (tmo != "-") != (sc.inj == .deadline) then "BAD e2e racy scenario: tmo must be set exactly when inj=deadline" else
       let r := serve sc env
       -- model output, canonical
@@ -493,6 +495,27 @@ def handleOpts (i o : List String) : String :=
         s!"VIOL {why} want: st={es.status} ct={bytesToString es.ct} codec={es.codec} ds={es.ds} dm={es.dm} (marshalers in force: {(specMarshalers opts).map codecOf}, default: {codecOf (specDefault opts)})"
   | _, _ => "BAD opts arity"
 
+/-! ### strag: a `Send` abandoned by withCtx while its write is blocked (D21) -/
+
+/-- The sequential reading of these runs (`C10_stream_final_is_sequential`, `C10_abandoned_send_fenced`): the one
+    `Send` whose helper holds `mu` is waited for by `finish()` and counts, so the response is 200 with exactly its bytes
+    (one record, whatever `n` is — the pump stopped), the DeadlineExceeded that Forward returned is not rendered
+    (`C10_stream_no_error_after_success`), and nothing touches the writer after the return. -/
+def handleStrag (i o : List String) : String :=
+  match i, o with
+  | [rpc, _tmo, _n], [st, ct, dm, late, ret] =>
+    match kv? "rpc" rpc, kv? "st" st, (kv? "ct" ct) >>= optHexList?, kv? "dm" dm, kv? "late" late, kv? "ret" ret with
+    | some rpc, some st, some ct, some dm, some late, some ret =>
+      let item := s!"m:{toHex (ascii "held")}:{toHex (ascii "bytes")}"
+      let wantDm := if rpc == "s" then "nl|" ++ item else item
+      if late != "0" then s!"VIOL write-after-return late={late} returned-before-the-write-ended={ret}"
+      else if st != "200" || ct != some [mimeJSON] || dm != wantDm then
+        s!"VIOL abandoned-send-not-a-sequential-reading want st=200 ct=application/json dm={wantDm} (the bytes of the send that got through, no error document)"
+      else if ret != "0" then "DIFF handler returned while the write was blocked"
+      else s!"OK nt b=strag.{rpc}"
+    | _, _, _, _, _, _ => "BAD strag fields"
+  | _, _ => "BAD strag arity"
+
 def handle : Handler
   | ["tbl", c], [out] => handleTbl c out
   | "cvt" :: [e], out => handleCvt e out
@@ -506,6 +529,10 @@ def handle : Handler
   | "opts" :: _, "HANG" :: why => s!"VIOL hang {" ".intercalate (why.map (fun h => (parseHex h).map bytesToString |>.getD h))}"
   | "opts" :: _, "PANIC" :: why => s!"VIOL panic {" ".intercalate (why.map (fun h => (parseHex h).map bytesToString |>.getD h))}"
   | "opts" :: i, o => handleOpts i o
+  | "strag" :: _, "CRASH" :: why => s!"VIOL process-crash {" ".intercalate (why.map (fun h => (parseHex h).map bytesToString |>.getD h))}"
+  | "strag" :: _, "HANG" :: why => s!"VIOL hang {" ".intercalate (why.map (fun h => (parseHex h).map bytesToString |>.getD h))}"
+  | "strag" :: _, "PANIC" :: why => s!"VIOL panic {" ".intercalate (why.map (fun h => (parseHex h).map bytesToString |>.getD h))}"
+  | "strag" :: i, o => handleStrag i o
   | _, _ => "BAD c10 line"
 
 end GB.C10
